@@ -126,11 +126,12 @@ template <class Solver>
 static void run_history(vf::Ctx& ctx, const Problem& P, Solver& es, vw::OpCtl& ctl)
 {
     auto& r = ctx.rng;
-    const int len = (int) r.range(1, ctx.thorough ? 6 : 3);
+    const bool thor = ctx.thorough && P.clean;   // corpus cases are the same in both tiers
+    const int len = (int) r.range(1, thor ? 6 : 3);
     std::string word;
     bool inited = false, computed = false;
     const auto tols = TolSet<T>::get();
-    const long big = ctx.thorough ? 1000 : 300;
+    const long big = thor ? 1000 : 300;
     const std::vector<long> maxits = {1, 2, 5, 10, big, big, big};
     bool nontrivial = false;
     for (int step = 0; step <= len + 4; step++)
